@@ -10,14 +10,15 @@ def handle (input impl : Json) : R Reply := do
   let os := validObs rd.ctx limits rd.obs
   let err := (fieldD impl "err" (.str "")).getStr?.toOption.getD ""
   match fieldD impl "outcome" .null with
-  | .null =>
-    -- the implementation returned an error: only legitimate when the previous outcome does not validate
-    let prevBad := rd.hasPrev && !validOutcome rd.ctx limits rd.prev
-    pure { agree := prevBad, specModel := spec rd.ctx limits os want.agreed, specImpl := prevBad,
-           diff := s!"implementation error: {err}", fail := if prevBad then "" else s!"Outcome failed: {err}",
-           nontrivial := false, tags := ["impl-error"] }
+  | .null => pure (refusedReply rd err)
   | oj =>
     let got ← outcome oj
+    if acceptedBadPrev rd then
+      -- a broken correspondence, not by itself a failing input of this property (its statement speaks of valid inputs)
+      return { agree := false, specModel := true, specImpl := true,
+               diff := s!"the previous outcome ({rd.prevMode}) does not decode and validate, yet Outcome returned {showOutcome got}",
+               fail := "",
+               nontrivial := true, tags := ["accepted-bad-prev:" ++ rd.prevMode] }
     let agree := decide (got.agreed = want.agreed)
     let si := spec rd.ctx limits os got.agreed
     let threshold := rd.ctx.F + 1
